@@ -78,8 +78,11 @@ JudgeOp1(e, Fr, Gr) ==
     [] e.op = "Distinct" -> IF TooBig(R, Rid(e)) THEN TooBigRes(e)
                             ELSE Rel(e, R, DistinctPost(R, e.a.cols, e.a.null = 1, e.obs, Rid(e)))
     [] e.op = "Apply"  -> Det(e, ApplySem(R, e.a.instrs, e.a.tbls))
-    [] e.op = "FilteredApply" -> Det(e, FilteredApplySem(R, e.a.clause, e.a.instrs, e.a.tbls,
-                                                         IF "ambjudge" \in DOMAIN e /\ e.ambjudge = 1 THEN 2 ELSE 1))
+    [] e.op = "FilteredApply" ->
+         LET letter == "ambjudge" \in DOMAIN e /\ e.ambjudge = 1
+             a == FilteredApplySem(R, e.a.clause, e.a.instrs, e.a.tbls, IF letter THEN 2 ELSE 1)
+         IN IF letter \/ IsUnspec(a) \/ a.err \/ HasMiss(a) \/ ObsMatches(a, e.obs) THEN Det(e, a)
+            ELSE Det(e, FilteredApplySem(R, e.a.clause, e.a.instrs, e.a.tbls, 3))
     [] e.op = "WithRowNums" -> Det(e, WithRowNumsSem(R, e.a.dst))
     [] e.op = "Eval"   -> Det(e, EvalSem(R, e.a.dst, e.a.expr, e.a.ctx, e.a.tbls))
     [] e.op = "Rebuild" -> Det(e, RebuildSem(R))
